@@ -135,7 +135,7 @@ theorem jarLookup_none_not_mem {k : JKey} {jar : Jar} (h : jarLookup k jar = non
       · simp at h1; exact hk h1.1.symm
       · exact ih h h1
 
-theorem mem_dictSet {n v n' v' : Bytes} {d : Dict} (h : (n', v') ∈ dictSet n v d) :
+theorem mem_dictSet {n n' : Bytes} {v v' : Val} {d : Dict} (h : (n', v') ∈ dictSet n v d) :
     (n', v') ∈ d ∨ (n' = n ∧ v' = v) := by
   induction d with
   | nil => right; simpa [dictSet] using h
@@ -153,13 +153,13 @@ theorem mem_dictSet {n v n' v' : Bytes} {d : Dict} (h : (n', v') ∈ dictSet n v
         · left; exact List.mem_cons_of_mem _ h2
         · right; exact h2
 
-theorem dictSet_ne_nil (n v : Bytes) (d : Dict) : dictSet n v d ≠ [] := by
+theorem dictSet_ne_nil (n : Bytes) (v : Val) (d : Dict) : dictSet n v d ≠ [] := by
   cases d with
   | nil => simp [dictSet]
   | cons p rest => obtain ⟨pn, pv⟩ := p; simp only [dictSet]; split <;> simp
 
 /-- where a cookie in the jar after one Set-Cookie comes from -/
-theorem setCookie_mem {jar : Jar} {host : Bytes} {port : Nat} {c : Cookie} {k : JKey} {d : Dict} {n v : Bytes}
+theorem setCookie_mem {jar : Jar} {host : Bytes} {port : Nat} {c : Cookie} {k : JKey} {d : Dict} {n : Bytes} {v : Val}
     (hk : (k, d) ∈ setCookie jar host port c) (hn : (n, v) ∈ d) :
     (∃ d0, (k, d0) ∈ jar ∧ (n, v) ∈ d0) ∨
     (k = ckey c host port ∧ n = c.name ∧ v = c.value ∧ c.expired = false ∧
@@ -208,12 +208,12 @@ theorem setCookie_mem {jar : Jar} {host : Bytes} {port : Nat} {c : Cookie} {k : 
 
 /-- cookie `(n, v)` under key `k` was put there by a Set-Cookie of a response in `evs` that was not expired and
     whose host passed the (implemented) domain check for the key's domain -/
-def SetBy (evs : List Event) (k : JKey) (n v : Bytes) : Prop :=
+def SetBy (evs : List Event) (k : JKey) (n : Bytes) (v : Val) : Prop :=
   ∃ host port cs c, Event.resp host port cs ∈ evs ∧ c ∈ cs ∧ c.name = n ∧ c.value = v ∧ c.expired = false ∧
     k = ckey c host port ∧ implDomainMatch host k.domain = true
 
 theorem foldl_setCookie_mem {cs : List Cookie} : ∀ {jar : Jar} {host : Bytes} {port : Nat} {k : JKey} {d : Dict}
-    {n v : Bytes}, (k, d) ∈ cs.foldl (fun j c => setCookie j host port c) jar → (n, v) ∈ d →
+    {n : Bytes} {v : Val}, (k, d) ∈ cs.foldl (fun j c => setCookie j host port c) jar → (n, v) ∈ d →
     (∃ d0, (k, d0) ∈ jar ∧ (n, v) ∈ d0) ∨
     (∃ c ∈ cs, k = ckey c host port ∧ n = c.name ∧ v = c.value ∧ c.expired = false ∧
       implDomainMatch host (ckey c host port).domain = true) := by
@@ -228,7 +228,7 @@ theorem foldl_setCookie_mem {cs : List Cookie} : ∀ {jar : Jar} {host : Bytes} 
       · right; exact ⟨c, by simp, h1⟩
     · right; exact ⟨c', List.mem_cons_of_mem _ hc', r⟩
 
-theorem response_mem {cs : List Cookie} {jar : Jar} {host : Bytes} {port : Nat} {k : JKey} {d : Dict} {n v : Bytes}
+theorem response_mem {cs : List Cookie} {jar : Jar} {host : Bytes} {port : Nat} {k : JKey} {d : Dict} {n : Bytes} {v : Val}
     (hk : (k, d) ∈ response jar host port cs) (hn : (n, v) ∈ d) :
     (∃ d0, (k, d0) ∈ jar ∧ (n, v) ∈ d0) ∨ SetBy [Event.resp host port cs] k n v := by
   rcases foldl_setCookie_mem (by simpa [response] using hk) hn with h1 | ⟨c, hc, h1, h2, h3, h4, h5⟩
@@ -236,7 +236,7 @@ theorem response_mem {cs : List Cookie} {jar : Jar} {host : Bytes} {port : Nat} 
   · right
     exact ⟨host, port, cs, c, by simp, hc, h2.symm, h3.symm, h4, h1, by rw [h1]; exact h5⟩
 
-theorem origin_run (evs : List Event) : ∀ (jar : Jar) (P : JKey → Bytes → Bytes → Prop),
+theorem origin_run (evs : List Event) : ∀ (jar : Jar) (P : JKey → Bytes → Val → Prop),
     (∀ k d n v, (k, d) ∈ jar → (n, v) ∈ d → P k n v) →
     ∀ k d n v, (k, d) ∈ runJar jar evs → (n, v) ∈ d → P k n v ∨ SetBy evs k n v := by
   induction evs with
@@ -365,7 +365,7 @@ theorem jarLookup_filter_ne (k' k : JKey) (jar : Jar) :
         · rfl
         · exact ih
 
-theorem dictGet_dictSet (n' n v : Bytes) (d : Dict) :
+theorem dictGet_dictSet (n' n : Bytes) (v : Val) (d : Dict) :
     dictGet n' (dictSet n v d) = if n' = n then some v else dictGet n' d := by
   induction d with
   | nil => by_cases h : n' = n <;> simp [dictSet, dictGet, h, eq_comm]
@@ -524,7 +524,7 @@ theorem jarGet_run (evs : List Event) : ∀ (jar : Jar) (k : JKey) (n : Bytes),
 def JarWF (jar : Jar) : Prop :=
   (jar.map (·.1)).Nodup ∧ ∀ k d, (k, d) ∈ jar → (d.map (·.1)).Nodup
 
-theorem dictSet_names (n v : Bytes) (d : Dict) :
+theorem dictSet_names (n : Bytes) (v : Val) (d : Dict) :
     (dictSet n v d).map (·.1) = if n ∈ d.map (·.1) then d.map (·.1) else d.map (·.1) ++ [n] := by
   induction d with
   | nil => simp [dictSet]
@@ -537,7 +537,7 @@ theorem dictSet_names (n v : Bytes) (d : Dict) :
       simp only [h1, if_false, List.map_cons, ih, List.mem_cons, h1', false_or]
       split <;> simp
 
-theorem dictSet_nodup (n v : Bytes) (d : Dict) (h : (d.map (·.1)).Nodup) : ((dictSet n v d).map (·.1)).Nodup := by
+theorem dictSet_nodup (n : Bytes) (v : Val) (d : Dict) (h : (d.map (·.1)).Nodup) : ((dictSet n v d).map (·.1)).Nodup := by
   rw [dictSet_names]
   split
   · exact h
@@ -634,7 +634,7 @@ theorem jarLookup_of_mem_nodup {jar : Jar} (h : (jar.map (·.1)).Nodup) {k : JKe
       simp only [jarLookup, hne, if_false]
       exact ih h.2 h1
 
-theorem dictGet_of_mem_nodup {d : Dict} (h : (d.map (·.1)).Nodup) {n v : Bytes} (hm : (n, v) ∈ d) :
+theorem dictGet_of_mem_nodup {d : Dict} (h : (d.map (·.1)).Nodup) {n : Bytes} {v : Val} (hm : (n, v) ∈ d) :
     dictGet n d = some v := by
   induction d with
   | nil => simp at hm
